@@ -208,6 +208,12 @@ def _trig(name):
     return f
 
 
+def _is_standin(x):
+    """symbolic stand-ins defined by the verifier (engine / contracts / props), numpy arrays excluded"""
+    mod = (getattr(type(x), "__module__", "") or "").split(".")[0]
+    return mod in ("engine", "contracts", "props") and not isinstance(x, _np.ndarray)
+
+
 class NPShim:
     newaxis = None
     pi = _np.pi
@@ -217,7 +223,21 @@ class NPShim:
     linalg = Linalg()
 
     def __getattr__(self, name):
-        return getattr(_np, name)
+        native = getattr(_np, name)
+        if not callable(native) or isinstance(native, type):
+            return native
+
+        def guarded(*a, **k):
+            # a numpy function without a model here must not be applied to a symbolic stand-in (a token object): numpy would treat it as an
+            # opaque 0-d object and silently return nonsense. (Object arrays of proxy numbers are fine: numpy's own code then runs on the
+            # proxies, whose comparisons fork.)
+            for x in list(a) + list(k.values()):
+                if _is_standin(x) and not isinstance(x, (SR, SB)):
+                    raise Unsupported("numpy.%s applied to a symbolic stand-in (%s): no model" % (name, type(x).__name__))
+            return native(*a, **k)
+
+        guarded.__name__ = name
+        return guarded
 
     # constructors: object dtype so that proxies can be stored
     def array(self, x, dtype=None, copy=True):
@@ -456,9 +476,16 @@ class NPShim:
         return _np.array_equal(a, b)
 
     def around(self, a, decimals=0, out=None):
-        if has_sym(a):
-            return a  # rounding to 9 decimals is the identity in real arithmetic (L-FLOAT)
+        if has_sym(a) or _is_standin(a):
+            if isinstance(decimals, int) and decimals >= 8:
+                return a  # rounding away the last digits of a double is the identity in real arithmetic (L-FLOAT)
+            raise Unsupported("numpy.around(symbolic, decimals=%r): coarse rounding is not the identity" % (decimals,))
         return _np.around(a, decimals=decimals, out=out)
+
+    def round(self, a, decimals=0, out=None):
+        return self.around(a, decimals=decimals, out=out)
+
+    round_ = round
 
 
 NP = NPShim()
